@@ -356,10 +356,77 @@ class Gen:
                 self.conns[c]["nick"] = n1
                 self.conns[c]["done"] = True
 
+    def bulk_scene(self):
+        """the same thing many times: list lengths at which chunking, caps and 'full' conditions start to matter"""
+        r = self.r
+        L = self.line
+        regs = [c for c, x in self.conns.items() if x["live"] and x["done"] and x.get("nick")]
+        k = r.choice(["whowas_many", "ison_many", "bans_many", "joins_many", "invites_many", "members_many"])
+        live = {x.get("nick") for x in self.conns.values() if x["live"] and x.get("nick")}
+        if k == "whowas_many":
+            # one nickname released again and again (session ends and renames away from it), then WHOWAS
+            nick = r.choice([x for x in NICKS if x not in live] or ["zz7"])
+            n = r.choice([3, 8, 9, 10, 12])
+            for i in range(n):
+                c = self.new_conn()
+                if c is None:
+                    break
+                if self.server_pw:
+                    L(c, "PASS " + self.server_pw)
+                L(c, "NICK " + nick); L(c, "USER w%d 0 * :Session %d" % (i, i))
+                how = r.choice(["quit", "quit", "eof", "nick"])
+                if how == "quit":
+                    L(c, "QUIT :bye %d" % i); self.conns[c]["live"] = False
+                elif how == "eof":
+                    self.ops.append("eof %d" % c); self.conns[c]["live"] = False
+                else:
+                    L(c, "NICK %sx%d" % (nick, i)); self.conns[c]["nick"] = "%sx%d" % (nick, i); self.conns[c]["done"] = True
+                    L(c, "QUIT"); self.conns[c]["live"] = False
+            if regs:
+                L(regs[0], "WHOWAS " + nick); L(regs[0], "WHOWAS %s %s" % (nick, r.choice(["1", "3", "20"])))
+        elif k == "ison_many" and regs:
+            n = r.choice([19, 20, 21, 40, 41, 5])
+            pool = sorted(live) + ["ghost%d" % i for i in range(45)]
+            names = [r.choice(sorted(live)) if (live and r.random() < 0.4) else "ghost%d" % i for i in range(n)]
+            L(regs[0], "ISON " + " ".join(names)); L(regs[0], "ISON " + " ".join(sorted(live) * 7)[:1500])
+            L(regs[0], "USERHOST " + " ".join((sorted(live) + ["ghost1", "ghost2"]) * 2)[:400])
+        elif k == "bans_many" and regs:
+            a = regs[0]
+            ch = "#bulk"
+            L(a, "JOIN " + ch)
+            n = r.choice([5, 12, 20])
+            for i in range(0, n, 4):
+                ms = ["m%d!*@*" % j for j in range(i, min(i + 4, n))]
+                L(a, "MODE %s +%s %s" % (ch, r.choice("beI") * len(ms), " ".join(ms)))
+            L(a, "MODE %s b" % ch); L(a, "MODE %s e" % ch); L(a, "MODE %s I" % ch); L(a, "MODE " + ch)
+        elif k == "joins_many" and len(regs) > 1:
+            a, b = regs[0], regs[1]
+            chans = ["#j%d" % i for i in range(r.choice([6, 12, 25]))]
+            L(a, "JOIN " + ",".join(chans)); L(b, "WHOIS " + self.conns[a]["nick"]); L(a, "NAMES"); L(b, "LIST")
+            L(a, "PART " + ",".join(chans[::2]) + " :half"); L(b, "WHOIS " + self.conns[a]["nick"]); L(a, "JOIN 0")
+        elif k == "invites_many" and len(regs) > 1:
+            a, b = regs[0], regs[1]
+            nb = self.conns[b]["nick"]
+            chans = ["#i%d" % i for i in range(r.choice([3, 9, 17]))]
+            L(a, "JOIN " + ",".join(chans))
+            for ch in chans:
+                L(a, "MODE %s +i" % ch); L(a, "INVITE %s %s" % (nb, ch))
+            L(b, "JOIN " + ",".join(chans[:len(chans) // 2 + 1])); L(b, "JOIN " + ",".join(chans))
+        elif k == "members_many":
+            ch = "#crowd"
+            for c in regs[:12]:
+                L(c, "JOIN " + ch)
+            if regs:
+                L(regs[0], "NAMES " + ch); L(regs[0], "WHO " + ch); L(regs[0], "PRIVMSG %s :all" % ch)
+                L(regs[0], "MODE %s +%s %s" % (ch, "v" * min(len(regs), 6), " ".join(self.conns[c]["nick"] for c in regs[:6])))
+                L(regs[-1], "NAMES " + ch)
+
     def scene(self):
         r = self.r
         if r.random() < (0.55 if self.profile == "reg" else 0.06):
             return self.reg_scene()
+        if r.random() < 0.08:
+            return self.bulk_scene()
         regs = [c for c, x in self.conns.items() if x["live"] and x["done"] and x.get("nick")]
         if len(regs) < 2:
             return
